@@ -341,18 +341,24 @@ def _c04_relative_spelling(seed):
     return out
 
 
-def _c04_sibling_scans(seed):
-    """Sibling sub-directories scanned one after the other in the same process (every order), each containing the same
-    prefix-less absolute import: every scan must equal the restriction of the whole-root scan."""
+def _c04_sibling_scans(arg):
+    """Sibling sub-directories scanned one after the other in ONE fresh process (one order per process), each containing the
+    same prefix-less absolute import: every scan must equal the restriction of the whole-root scan."""
+    seed, order_idx, root_first = arg
     rng = random.Random(seed)
-    files = {"__init__.py": "", "app/__init__.py": "", "app/main.py": "import app.util\nimport proj.app.util\nimport tools.cli\n", "app/util.py": "",
+    files = {"__init__.py": "", "app/__init__.py": "", "app/main.py": "import app.util\nimport proj.app.helpers\nimport tools.cli\n", "app/util.py": "", "app/helpers.py": "import app.deep.leaf\n",
+             "app/deep/__init__.py": "", "app/deep/leaf.py": "",
              "tools/__init__.py": "", "tools/cli.py": "import app.util\nimport tools.helpers\n", "tools/helpers.py": "import app.main\n",
              "core/__init__.py": "import core.engine\n", "core/engine.py": "from proj.core import VERSION\nimport app.util\nfrom core import engine2\n", "core/engine2.py": ""}
     out = []
     with temp_project(files, ROOT) as root:
-        whole = arch_snapshot(scan(root))
         subs = ["app", "tools", "core"]
-        for order in itertools.permutations(subs):
+        order = list(itertools.permutations(subs))[order_idx]
+        if root_first:
+            whole = arch_snapshot(scan(root))
+        else:
+            whole = (expected_modules(files), None, None)
+        if True:
             for d in order + order[:1]:
                 sm, si, _ = arch_snapshot(scan(root, os.path.join(root, d)))
                 dn = modname(d)
@@ -381,7 +387,7 @@ def _c04_sibling_scans(seed):
                 got_i = {(a, c) for a, c in si if c not in parents(a)}
                 if sm != want_m or got_i != want_i:
                     out.append(dict(case="sibling-scans", detail=f"scan order {order}, module_path={d}: modules differ by {sorted(sm ^ want_m)}, imports missing {sorted(want_i - got_i)} extra {sorted(got_i - want_i)}",
-                                    input=dict(kind="c04-sib", seed=seed)))
+                                    input=dict(kind="c04-sib", seed=seed, order_idx=order_idx, root_first=root_first)))
                     return out
     return out
 
@@ -434,14 +440,20 @@ def bounded_tree_mirror(tier, seed):
     n = 40 if tier == "quick" else 400
     _run_cases(b, _c04_case, [seed * 100003 + i for i in range(n)])
     _run_cases(b, _c04_relative_spelling, [seed * 7 + i for i in range(4)])
-    _run_cases(b, _c04_sibling_scans, [seed])
+    for res in pmap(_c04_sibling_scans, [(seed, i, rf) for i in range(6) for rf in (True, False)], fresh=True):
+        b.case()
+        for v in res:
+            b.violation(v["case"], v["detail"], v["input"])
     _run_cases(b, _c04_module_objects, [seed % 1000])
     b.samples.append(dict(tree=sorted(random_tree(random.Random(seed)))[:8]))
     return b.result()
 
 
 def rerun_c04(inp):
-    fn = {"c04": _c04_case, "c04-rel": _c04_relative_spelling, "c04-obj": _c04_module_objects, "c04-sib": _c04_sibling_scans}[inp["kind"]]
+    if inp["kind"] == "c04-sib":
+        res = pmap(_c04_sibling_scans, [(inp["seed"], inp.get("order_idx", 0), inp.get("root_first", False))], fresh=True)[0]
+        return (not res), ("; ".join(v["detail"] for v in res) or "every sub-directory scan equals the restriction of the whole-root scan")
+    fn = {"c04": _c04_case, "c04-rel": _c04_relative_spelling, "c04-obj": _c04_module_objects}[inp["kind"]]
     res = fn(inp["seed"])
     return (not res), ("; ".join(v["detail"] for v in res) or "scan mirrors the tree")
 
